@@ -39,7 +39,7 @@ fn write_if_changed(p: &Path, s: &str) {
 
 impl Corpus {
     /// `darling_only`: the shard crates depend on nothing but darling (C20's self-containment).
-    pub fn write(dir: &Path, shards: Vec<Shard>, darling_only: bool) -> Corpus {
+    pub fn write(dir: &Path, shards: Vec<Shard>, darling_only: bool, suggestions: bool) -> Corpus {
         let _ = std::fs::create_dir_all(dir);
         // drop stale shard directories of an earlier, larger corpus
         if let Ok(rd) = std::fs::read_dir(dir) {
@@ -65,8 +65,10 @@ impl Corpus {
         for s in &shards {
             let deps = if darling_only {
                 "darling = { path = \"/repo\" }\n".to_string()
-            } else {
+            } else if suggestions {
                 "darling = { path = \"/repo\" }\nsyn = { version = \"2.0.15\", features = [\"full\", \"extra-traits\"] }\nvf-support = { path = \"/verif/vf/corpus/support\" }\n".to_string()
+            } else {
+                "darling = { path = \"/repo\", default-features = false }\nsyn = { version = \"2.0.15\", features = [\"full\", \"extra-traits\"] }\nvf-support = { path = \"/verif/vf/corpus/support\", default-features = false }\n".to_string()
             };
             write_if_changed(&dir.join(&s.name).join("Cargo.toml"), &format!("[package]\nname = \"{}\"\nversion = \"0.0.0\"\nedition = \"2021\"\n\n[dependencies]\n{deps}", s.name));
             write_if_changed(&dir.join(&s.name).join("src/main.rs"), &s.source);
